@@ -185,3 +185,136 @@ specialise(
     bounds="target type fixed per instance: calculate / text / background-geopoint / invisible trigger source (must be rejected)",
     weight=60,
 )
+
+
+# ---- b': one trigger, two targets ---------------------------------------------------------------------
+def c10_two_targets(p_calc2: bool, geo2: bool, order: bool, c0: int, c1: int) -> bool:
+    """
+    vpre: 97 <= c0 <= 122 and 97 <= c1 <= 122
+    vpost: _ == True
+    """
+    calc = S(c0, c1)
+    T = {"type": "text", "name": "t", "label": "T"}
+    A = {"type": "calculate", "name": "a", "calculation": calc, "trigger": "${t}"}
+    if geo2:
+        B = {"type": "background-geopoint", "name": "b", "trigger": "${t}"}
+    else:
+        B = {"type": "text", "name": "b", "label": "B", "trigger": "${t}"}
+        if p_calc2:
+            B["calculation"] = calc + "2"
+    rows = [T, A, B] if order else [A, B, T]
+    survey, _w, _js = build_survey({"survey": rows})
+    root = survey.xml()
+    acts = [e for e in elements(root) if e.tagName in ("setvalue", "odk:setgeopoint")]
+    if len(acts) != 2:
+        return False
+    a, b = acts
+    for x in acts:
+        if x.getAttribute("event") != "xforms-value-changed" or x.parentNode.tagName != "input" or x.parentNode.getAttribute("ref") != "/data/t":
+            return False
+    if a.tagName != "setvalue" or a.getAttribute("ref") != "/data/a" or a.getAttribute("value") != calc:
+        return False
+    if b.getAttribute("ref") != "/data/b":
+        return False
+    if geo2:
+        return b.tagName == "odk:setgeopoint" and not b.hasAttribute("value")
+    if b.tagName != "setvalue":
+        return False
+    if p_calc2:
+        return b.getAttribute("value") == calc + "2"
+    return not b.hasAttribute("value")  # no calculation: the action clears the target
+
+
+specialise(
+    "C10",
+    "b.two-targets",
+    c10_two_targets,
+    {"geo2": [False, True]},
+    timeout=300,
+    kernel=K + ("pyxform.question:Question.nest_set_nodes",),
+    shims=("S1", "S2", "S3", "S4", "S11"),
+    symbolic="calculation text of 2 symbolic letters on the first target; the second target has its own calculation or none (boolean); rows before/after the trigger (boolean)",
+    bounds="one trigger question with two triggered targets (calculate + text, or calculate + background-geopoint fixed per instance): each action carries exactly its own target and value",
+    weight=40,
+)
+
+
+# ---- e: numeric literals are single NUMBER tokens (static defaults), decided on the lexer's regexes ----
+from vf.registry import ob_e2  # noqa: E402
+
+
+def number_literal_run(tier, replay_call=None):
+    import re
+    import time
+
+    import z3
+
+    from pyxform.parsing import expression as ex
+    from pyxform.utils import default_is_dynamic
+    from vf import e2_regex as R
+
+    def real_ok(w):
+        toks, rest = ex.parse_expression(w)
+        return rest == "" and len(toks) == 1 and toks[0].name == "NUMBER" and toks[0].value == w and not default_is_dynamic(w, "decimal")
+
+    if tier == "replay":
+        w = replay_call["witness"]
+        bad = not real_ok(w)
+        return {"verdict": "counterexample" if bad else "confirmed", "replayed": bad, "counterexample": replay_call}
+    rules = list(ex.LEXER_RULES.items())
+    names = [k for k, _v in rules]
+    ni = names.index("NUMBER")
+    # documented numeric literal: optional sign, digits with optional fraction, or a bare fraction
+    ref_src = r"-?([0-9]+(\.[0-9]*)?|\.[0-9]+)"
+    ref = R.translate(re.compile(ref_src))
+    num = R.translate(re.compile(rules[ni][1]))
+    checked, dis = R.validate_translation(re.compile(rules[ni][1]), num)
+    if dis:
+        return {"verdict": "harness_error", "detail": f"regex translator disagrees with Python re: {dis[:3]}"}
+    t0 = time.time()
+    out = {"queries": 0, "validated": checked, "extra": {"number_rule": rules[ni][1], "reference": ref_src, "earlier_rules": names[:ni]}}
+    v1, w1, _dt = R.check_subset(ref, num, timeout_ms=120000)
+    out["queries"] += 1
+    bad_w, why = None, ""
+    if v1 == "sat":
+        bad_w, why = w1, f"numeric literal {w1!r} is not matched by the lexer's NUMBER rule"
+    verdicts = [v1]
+    anyc = z3.Star(R.ranges_re([(0, R.MAXCP)]))
+    for k, src in rules[:ni]:
+        if bad_w is not None:
+            break
+        earlier = R.translate(re.compile(src))
+        v2, w2, _dt = R.check_subset(ref, z3.Complement(z3.Concat(earlier, anyc)), timeout_ms=120000)
+        out["queries"] += 1
+        verdicts.append(v2)
+        if v2 == "sat":
+            bad_w, why = w2, f"rule {k} (higher priority) matches a prefix of the numeric literal {w2!r}"
+    out["solver_s"] = round(time.time() - t0, 3)
+    out["samples"] = R.sample(ref, 6)
+    if bad_w is not None:
+        real = not real_ok(bad_w)
+        out.update(verdict="counterexample", counterexample={"witness": bad_w}, replayed=real, detail=why + "; default_is_dynamic/lexer on the real code: " + ("not a single NUMBER token" if real else "accepted"), replay_result={"single_number_token": not real})
+        return out
+    if all(v == "unsat" for v in verdicts):
+        # the language-level claim; Python's leftmost-alternative choice inside the rule is
+        # exercised on solver-generated members of the reference language
+        for w in out["samples"]:
+            if not real_ok(w):
+                out.update(verdict="counterexample", counterexample={"witness": w}, replayed=True, detail=f"numeric literal {w!r} is not lexed as one NUMBER token", replay_result={"single_number_token": False})
+                return out
+        out["verdict"] = "confirmed"
+    else:
+        out["verdict"] = "unknown"
+    return out
+
+
+ob_e2(
+    "C10",
+    "e.number-literals",
+    number_literal_run,
+    timeout=600,
+    kernel=("pyxform.parsing.expression:get_lexer_rules", "pyxform.parsing.expression:parse_expression", "pyxform.utils:default_is_dynamic"),
+    symbolic="one z3 String over all strings of the numeric literal language -?([0-9]+(\\.[0-9]*)?|\\.[0-9]+), any length",
+    bounds="unbounded length; language inclusion in the NUMBER rule and emptiness of the intersection with every higher-priority rule followed by anything (so the literal is one NUMBER token and the default stays static); Python's ordered choice between the alternatives inside the NUMBER rule is checked on solver-generated samples only",
+    weight=10,
+)
